@@ -9,6 +9,8 @@
 From Coq Require Import List Ascii String ZArith NArith Bool.
 From Shexer Require Import Lib.PyStr Lib.Dict Gen.Consts Spec.Rdf Model.Tracker Model.Profiler
      Model.Freq Model.FreqInst Model.SerialShexc Model.Run Model.Channels Spec.ChannelSpec Proofs.ChannelProofs.
+From Coq Require Import Permutation.
+From Shexer Require Import Spec.Counts Proofs.EndToEnd Proofs.ChannelCompose.
 Import ListNotations.
 
 (** ** (a) the partition of the lines into files / zip members is invisible.
@@ -339,3 +341,37 @@ Theorem C08_tsv_channel_independent :
     = Some (run_shapes fa c thr (kinded g)).
 Proof. exact tsv_channel_independent. Qed.
 Print Assumptions C08_tsv_channel_independent.
+
+(** ** rdflib channels, composed with C09 (Proofs/EndToEnd.v): the passes see
+    [rename f1 G1] and [rename f2 G2], [G1] and [G2] permutations of [G].
+    Without instance cap and with IRI instances / classes: the instance pass
+    yields a dictionary equivalent to that of [G], the feature pass does not
+    see its renaming, and every count [occ] / [class_count] over what the two
+    passes saw is the count over [G] (by P1 these are all the numbers the
+    class profile holds; which of two tied candidates is then chosen is C09's
+    tie findings). *)
+Theorem C08_rdflib_counts_invariant :
+  forall c (G G1 G2 : graph) (f1 f2 : str -> str) (I : insts),
+    (r_cap c <= 0)%Z -> Permutation G G1 -> Permutation G G2 ->
+    typing_iri (r_tau c) G ->
+    (forall b, In b (bnode_ids G) -> dmem I b = false /\ dmem I (f2 b) = false) ->
+    track (r_tau c) (mode_of c) (r_cap c) G = inl I ->
+    exists I1,
+      track (r_tau c) (mode_of c) (r_cap c) (rename f1 G1) = inl I1 /\
+      insts_equiv I I1 /\
+      profile (pcfg_of c) I1 (rename f2 G2) = profile (pcfg_of c) I1 G2 /\
+      (forall cls, class_count I1 cls = class_count I cls) /\
+      (forall dir cls p k card, occ dir (r_tau c) I1 G2 cls p k card = occ dir (r_tau c) I G cls p k card).
+Proof. exact rdflib_counts_invariant. Qed.
+Print Assumptions C08_rdflib_counts_invariant.
+
+Example C08_rdflib_counts_inhabited :
+  (r_cap ex_cfg <= 0)%Z /\ Permutation g_iri_inst (rev g_iri_inst) /\ typing_iri (r_tau ex_cfg) g_iri_inst
+  /\ exists I, track (r_tau ex_cfg) (mode_of ex_cfg) (r_cap ex_cfg) g_iri_inst = inl I
+               /\ forall b, In b (bnode_ids g_iri_inst) -> dmem I b = false /\ dmem I (f_two b) = false.
+Proof.
+  split; [intros H; discriminate H|]. split; [apply Permutation_rev|]. split.
+  - exact (proj1 C08_renamings_inhabited).
+  - eexists. split; [vm_compute; reflexivity|].
+    intros b Hb. vm_compute in Hb. destruct Hb as [<-|[<-|[]]]; split; vm_compute; reflexivity.
+Qed.
